@@ -62,6 +62,11 @@ def cones(ctx):
     for K, th in ([(3, 30), (4, 45), (6, 20), (12, 70)] if ctx.quick else [(K, th) for K in range(3, 13) for th in (10, 30, 45, 60, 80)]):
         out.append((f"ice{K}_{th}", ConeOrder3DIceCream(th, K).ordering_cone))
     from vopy.ordering_cone import OrderingCone
+    # cones typed with whole numbers keep the integer dtype the user wrote (legal: OrderingCone([[1, 0], [0, 1]]))
+    for nm, Wi in (("int_orth3", [[1, 0, 0], [0, 1, 0], [0, 0, 1]]), ("int_orth2", np.array([[1, 0], [0, 1]])),
+                   ("int_rep3", [[1, 0, 0], [0, 1, 0], [0, 0, 1], [0, 0, 1]]), ("int_perm3", np.array([[0, 0, 1], [1, 0, 0], [0, 1, 0]])),
+                   ("int_wedge4", [[1, 0, 0, 0], [0, 1, 0, 0], [0, 0, 1, 0]]), ("int_orth4", np.eye(4, dtype=int))):
+        out.append((nm, OrderingCone(Wi)))
     for _ in range(6 if ctx.quick else 60):
         m = rng.choice([2, 3, 4]); K = rng.randint(m, m + 2)
         e = np.ones(m) / math.sqrt(m)
